@@ -1030,6 +1030,55 @@ theorem declared_long_valid (orc : Oracle) (incl : Bool) (decls : List Decl) (es
          ⟨⟨ht, rfl, heq, hne⟩, by simpa [Spell.accepted, Spell.last] using ha⟩⟩
 
 
+/-! ### response files as bytes -/
+
+
+theorem linesAux_line (l rest cur : Str) (h : 10 ∉ l) :
+    linesAux (l ++ 10 :: rest) cur = dropCR (cur.reverse ++ l) :: linesAux rest [] := by
+  induction l generalizing cur with
+  | nil => simp [linesAux]
+  | cons c t ih =>
+    have hc : c ≠ 10 := fun e => h (by simp [e])
+    have ht : 10 ∉ t := fun e => h (by simp [e])
+    have : linesAux (c :: (t ++ 10 :: rest)) cur = linesAux (t ++ 10 :: rest) (c :: cur) := by
+      rw [linesAux.eq_def]
+      split
+      · rename_i heq; cases heq
+      · rename_i heq; injection heq with e _; exact absurd e hc
+      · rename_i heq; injection heq with e1 e2; subst e1; subst e2; rfl
+    simp only [List.cons_append]
+    rw [this, ih (c :: cur) ht]
+    simp
+
+/-- a file written as LF-terminated lines is read back as exactly these lines, provided no line contains LF or ends
+    in CR (the representation the harness uses for `files`) -/
+theorem linesOf_lf (ls : List Str) (h : ∀ l ∈ ls, 10 ∉ l ∧ l.getLast? ≠ some 13) :
+    linesOf (ls.flatMap (fun l => l ++ [10])) = ls := by
+  unfold linesOf
+  induction ls with
+  | nil => simp [linesAux]
+  | cons l ls ih =>
+    obtain ⟨h1, h2⟩ := h l (by simp)
+    simp only [List.flatMap_cons, List.append_assoc, List.singleton_append]
+    rw [linesAux_line l _ [] h1, ih (fun x hx => h x (by simp [hx]))]
+    simp [dropCR, h2]
+
+/-- … and with CRLF terminators every line without LF is read back unchanged, also one that itself ends in CR -/
+theorem linesOf_crlf (ls : List Str) (h : ∀ l ∈ ls, 10 ∉ l) :
+    linesOf (ls.flatMap (fun l => l ++ [13, 10])) = ls := by
+  unfold linesOf
+  induction ls with
+  | nil => simp [linesAux]
+  | cons l ls ih =>
+    have h1 := h l (by simp)
+    have h13 : 10 ∉ l ++ [13] := by simp [h1]
+    have e : l ++ [13, 10] ++ List.flatMap (fun l => l ++ [13, 10]) ls =
+        (l ++ [13]) ++ 10 :: List.flatMap (fun l => l ++ [13, 10]) ls := by simp
+    simp only [List.flatMap_cons]
+    rw [e, linesAux_line (l ++ [13]) _ [] h13, ih (fun x hx => h x (by simp [hx]))]
+    simp [dropCR]
+
+
 /-! ### a concrete instance (used for the non-vacuity examples of Props/C10.lean) -/
 
 def exTbl : Table := tableOf [([110], ⟨3, false⟩), ([110, 97, 109, 101], ⟨3, false⟩), ([97], ⟨4, true⟩)]
